@@ -218,6 +218,7 @@ pub fn flat_pipes() -> Vec<Pipe> {
     out.push(Pipe::hot(0).o1(Op1::Flat(k, vec![Hot(1), Cold(vec![NoteSpec::Err(E::E1)])])));
     out.push(Pipe::hot(0).o1(Op1::Flat(k, vec![Hot(1), Hot(2)])));
     out.push(Pipe::hot(0).o1(Op1::Flat(k, vec![Hot(1), Cold(vec![N(5)])])).o1(Op1::Take(2)));
+    out.push(Pipe::hot(0).o1(Op1::Flat(k, vec![Ticker(1), Cold(vec![N(5), C])])));
   }
   out
 }
